@@ -1,6 +1,6 @@
 #!/bin/bash
 d=$1
-/verif/bin/seedtest "$d" --skip-validate > "$d/.result.json" 2>&1
+${VERIF_ROOT:-/verif}/bin/seedtest "$d" --skip-validate > "$d/.result.json" 2>&1
 python3 - "$d" <<'PY'
 import json, sys, os
 d = sys.argv[1]
